@@ -332,10 +332,230 @@ class DocStream(Stream):
         return 'uid' not in keys or 'type' in keys or 'rules' in keys
 
 
+# ---------------------------------------------------------------------------------------------------------------
+# the stored structure of a rule: Model.RuleJson against Rule.to_json / Rule.from_json (jsonpickle)
+# ---------------------------------------------------------------------------------------------------------------
+CODEC_KINDS = set(specs.OPERATOR) | set(specs.LISTR) | set(specs.STRR) | set(specs.MATCH) | {
+    'Truthy', 'Falsy', 'Any', 'Neither', 'And', 'Or', 'Not', 'PairsEqual', 'CIDR', 'SubjectEqual', 'ActionEqual',
+    'ResourceIn'}
+
+
+def codec_spec_ok(r):
+    """inside the codec's domain, and the arguments of a list rule pairwise distinct as Python set members"""
+    k = r[0]
+    if k not in CODEC_KINDS or k in specs.ALIASES:
+        return False
+    if k in ('And', 'Or'):
+        return all(codec_spec_ok(x) for x in r[1])
+    if k == 'Not':
+        return codec_spec_ok(r[1])
+    if k in specs.LISTR:
+        args = [specs.py(x) for x in r[1]]
+        try:
+            return len(set(args)) == len(args) and len({s_val(a) for a in args}) == len(args)
+        except TypeError:
+            return False
+    return True
+
+
+def _set_order(spec_args, items, render):
+    """the members of a set in the order of the spec's argument list (a set has no order of its own)"""
+    want = [s_val(specs.py(a)) for a in spec_args]
+    keyed = sorted(items, key=lambda x: want.index(render(x)) if render(x) in want else len(want))
+    return keyed
+
+
+def canon_doc(doc, spec):
+    """json.loads(rule.to_json()) with every py/set member list put in the spec's order"""
+    k = spec[0]
+    if k in specs.LISTR and isinstance(doc.get('data'), dict) and 'py/set' in doc['data']:
+        from jsonpickle import unpickler
+        items = _set_order(spec[1], doc['data']['py/set'], lambda x: s_val(_plain_decode(x)))
+        return dict(doc, data={'py/set': items})
+    if k in ('And', 'Or') and isinstance(doc.get('rules'), dict) and 'py/tuple' in doc['rules']:
+        ms = doc['rules']['py/tuple']
+        if len(ms) == len(spec[1]):
+            return dict(doc, rules={'py/tuple': [canon_doc(m, sp) if isinstance(m, dict) else m
+                                                 for m, sp in zip(ms, spec[1])]})
+    if k == 'Not' and isinstance(doc.get('rule'), dict):
+        return dict(doc, rule=canon_doc(doc['rule'], spec[1]))
+    return doc
+
+
+def _plain_decode(x):
+    if isinstance(x, dict) and list(x) == ['py/tuple']:
+        return tuple(_plain_decode(y) for y in x['py/tuple'])
+    if isinstance(x, list):
+        return [_plain_decode(y) for y in x]
+    if isinstance(x, dict):
+        return {k: _plain_decode(y) for k, y in x.items()}
+    return x
+
+
+def show_decoded(o, spec=None):
+    """mirror of RunC09.show_rule_full for a real rule object; spec (when known) orders set members"""
+    from vakt.rules.base import Rule
+    if not isinstance(o, Rule):
+        return '<%s>' % type(o).__name__
+    name = type(o).__name__
+    d = vars(o)
+    parts = []
+    for k in sorted(d):
+        v = d[k]
+        if k == 'rules' and isinstance(v, (tuple, list)):
+            sub = spec[1] if spec and spec[0] in ('And', 'Or') and len(spec[1]) == len(v) else [None] * len(v)
+            parts.append('rules=' + ';'.join(show_decoded(m, sp) for m, sp in zip(v, sub)) +
+                         ('' if isinstance(v, tuple) else '!list'))
+        elif k == 'rule':
+            parts.append('rule=' + show_decoded(v, spec[1] if spec and spec[0] == 'Not' else None))
+        elif k == 'data' and isinstance(v, (set, frozenset)):
+            items = list(v)
+            if spec and spec[0] in specs.LISTR:
+                items = _set_order(spec[1], items, s_val)
+            else:
+                items = sorted(items, key=s_val)
+            parts.append('data=[' + ','.join(s_val(x) for x in items) + ']')
+        else:
+            try:
+                parts.append('%s=%s' % (k, s_val(v)))
+            except TypeError:
+                parts.append('%s=<%s>' % (k, type(v).__name__))
+    return '%s(%s)' % (name, ';'.join(parts))
+
+
+def doc_spec(doc):
+    """just enough of a spec to order the set members of a decoded structure like the structure lists them"""
+    if not isinstance(doc, dict):
+        return ['?']
+    cls = str(doc.get('py/object', '')).rsplit('.', 1)[-1]
+    try:
+        if cls in specs.LISTR:
+            return [cls, [specs.jv(_plain_decode(x)) for x in doc['data']['py/set']]]
+        if cls in ('And', 'Or'):
+            return [cls, [doc_spec(m) for m in doc['rules']['py/tuple']]]
+        if cls == 'Not':
+            return ['Not', doc_spec(doc['rule'])]
+    except (KeyError, TypeError):
+        pass
+    return ['?']
+
+
+def e_doc(v):
+    """parsed JSON -> Gallina val literal (JSON objects keep their key order)"""
+    from ..core import e_val
+    return e_val(v)
+
+
+class RuleCodecStream(Stream):
+    name = 'rule_codec'
+    imports = ('From Vakt Require Import Base.PyVal Model.Regex Model.Rules Model.Policy Model.RuleJson '
+               'Harness.RunC09.')
+    case_type = 'ccase'
+    run_fn = 'run_codec'
+    shard = 250
+    rule = ('rules of every built-in kind but RegexMatch (nested compositions up to depth 4, tuples / lists / '
+            'dictionaries as arguments, sets of hashables, Unicode text) written with Rule.to_json: the parsed JSON '
+            'structure is compared with Model.RuleJson.rule_val, and the object Rule.from_json rebuilds from the text '
+            '(class, attribute names, attribute values with their types) with rule_of_val of that structure; a second '
+            'kind of case decodes structures not produced by the encoder (attributes in another order, members '
+            'regrouped). non-trivial = a composition, a tuple or a set argument is involved')
+
+    def corpus(self):
+        return [{'k': 'enc', 'rule': ['And', [['Not', ['Or', [['Eq', {'T': [1, 'a']}], ['In', [1, {'T': [2]}]]]]],
+                                             ['StartsWith', 'a', True], ['SubjectMatch', 'id']]]},
+                {'k': 'enc', 'rule': ['Eq', [{'T': []}, [[]], {'D': [['a', {'T': [None]}]]}]]},
+                {'k': 'enc', 'rule': ['CIDR', '10.0.0.0/8']},
+                {'k': 'dec', 'doc': {'py/object': 'vakt.rules.string.Equal', 'ci': True, 'val': 'x'}, 'fuel': 1}]
+
+    def generate(self, rng, tier):
+        n = 700 if tier == 'quick' else 7000
+        made = 0
+        while made < n:
+            r = gen.rule(rng, rng.choice([0, 1, 2, 2, 3]), inquiry_rules=True, raising=False)
+            if not codec_spec_ok(r):
+                continue
+            made += 1
+            if rng.random() < 0.75:
+                yield {'k': 'enc', 'rule': r}
+                continue
+            # a structure the encoder did not write: attributes of every object put in another order
+            try:
+                doc = json.loads(specs.mk_rule(r).to_json())
+            except Exception:  # noqa
+                continue
+            yield {'k': 'dec', 'doc': self._reorder(rng, doc), 'fuel': rng.choice([1, 2, 3, 5, 8])}
+
+    def _reorder(self, rng, doc):
+        if isinstance(doc, list):
+            return [self._reorder(rng, x) for x in doc]
+        if not isinstance(doc, dict):
+            return doc
+        items = [(k, self._reorder(rng, v)) for k, v in doc.items()]
+        if 'py/object' in doc:
+            head = [kv for kv in items if kv[0] == 'py/object']
+            rest = [kv for kv in items if kv[0] != 'py/object']
+            rng.shuffle(rest)
+            items = head + rest
+        return dict(items)
+
+    def emit(self, c):
+        if c['k'] == 'enc':
+            return '(CEnc %s)' % specs.e_rule(c['rule'])
+        return '(CDec %d%%nat %s)' % (c['fuel'], e_doc(c['doc']))
+
+    def impl(self, c):
+        from vakt.rules.base import Rule
+        if c['k'] == 'enc':
+            r = specs.mk_rule(c['rule'])
+            text = r.to_json()
+            doc = canon_doc(json.loads(text), c['rule'])
+            back = Rule.from_json(text)
+            return s_val(doc) + ' => ' + show_decoded(back, c['rule'])
+        try:
+            back = Rule.from_json(json.dumps(c['doc']))
+        except Exception as e:  # noqa
+            return s_exc(e)
+        return show_decoded(back, doc_spec(c['doc']))
+
+    def oracle(self, c, obs):
+        """the statement on the implementation alone: what is read back is the rule that was written"""
+        if c['k'] != 'enc':
+            return None
+        want = show_decoded(specs.mk_rule(c['rule']), c['rule'])
+        got = obs.split(' => ', 1)[-1]
+        if got != want:
+            return 'the rule read back differs from the rule written: %s  vs  %s' % (got[:300], want[:300])
+        return None
+
+    def nontrivial(self, c, obs):
+        txt = json.dumps(c.get('rule', c.get('doc')))
+        return any(k in txt for k in ('"And"', '"Or"', '"Not"', '"T"', 'py/tuple', 'py/set', '"In"', '"AnyIn"'))
+
+    def shrink(self, c):
+        if c['k'] == 'enc':
+            r = c['rule']
+            if r[0] in ('And', 'Or'):
+                for x in r[1]:
+                    yield dict(c, rule=x)
+                for i in range(len(r[1])):
+                    yield dict(c, rule=[r[0], r[1][:i] + r[1][i + 1:]])
+            elif r[0] == 'Not':
+                yield dict(c, rule=r[1])
+            elif r[0] in specs.LISTR:
+                for i in range(len(r[1])):
+                    yield dict(c, rule=[r[0], r[1][:i] + r[1][i + 1:]])
+
+    def describe(self, c):
+        return ('import json; from harness.checks.c09 import RuleCodecStream; '
+                'print(RuleCodecStream().impl(json.loads(%r)))' % json.dumps(c))
+
+
 TRUSTED = [
     'Coq 8.16.1 kernel + vm_compute (no native_compute)',
     'Model/Policy.v from_props + ctor (Policy.from_json / __init__), tied by the from_json_documents stream; the '
     'checkers / rules models give the verdicts the reloaded policy must reproduce (persistence_round_trip stream)',
+    'Model/RuleJson.v rule_val / rule_of_val (the JSON object jsonpickle writes for a rule and the object it rebuilds), '
+    'tied to Rule.to_json / Rule.from_json by the rule_codec stream; the members of a py/set are compared as a set',
     'jsonpickle, pickle, SQLAlchemy JSON columns and bson are exercised, not modelled; SQLite is real, Mongo and '
     'Redis are client doubles',
 ]
@@ -345,7 +565,7 @@ ASSUME = ['rule arguments are JSON-representable values of the modelled universe
 
 
 def main(argv):
-    return run_check('C09', [RoundTripStream(), DocStream()], argv, trusted_base=TRUSTED, assumptions=ASSUME,
+    return run_check('C09', [RoundTripStream(), DocStream(), RuleCodecStream()], argv, trusted_base=TRUSTED, assumptions=ASSUME,
                      translated=('policy', 'sqlmodel', 'pin_inquiry', 'pin_sql', 'pin_mongo', 'pin_redis', 'pin_rules', 'pin_util'))
 
 
